@@ -52,6 +52,38 @@ def region_of(o):
     return o
 
 
+# ------------------------------------------------------------------ independence probe
+def disturb(o):
+    """change a *returned* object in place in every public way (geometry through the Mesh methods and through the
+    Region objects themselves, subregions, units, array entries, validity entries, mapping dict).  Used as
+        before = snap(x); y = x.op(...); disturb(y); assert snap(x) == before
+    A result that shares any mutable part with its operand (or with an earlier result) gives itself away."""
+    def quiet(fn):
+        try:
+            fn()
+        except Exception:
+            pass
+    if isinstance(o, df.Field):
+        quiet(lambda: o.array.__setitem__(Ellipsis, o.array * 0 + 7))
+        quiet(lambda: o.valid.__setitem__(Ellipsis, ~o.valid))
+        quiet(lambda: o.vdim_mapping.clear())
+        disturb(o.mesh)
+        return
+    if isinstance(o, df.Mesh):
+        v = [3.0 * float(e) + 1.0 for e in o.region.edges]
+        quiet(lambda: o.translate(v, inplace=True))
+        for s in list(o.subregions.values()):
+            disturb(s)
+        quiet(lambda: o.n.__setitem__(Ellipsis, o.n + 1))
+        disturb(o.region)
+        return
+    v = [5.0 * float(e) + 2.0 for e in o.edges]
+    quiet(lambda: o.translate(v, inplace=True))
+    quiet(lambda: o.scale(3.0, inplace=True))
+    quiet(lambda: setattr(o, "units", ["disturbed"] * o.ndim))
+    quiet(lambda: o.pmin.__setitem__(Ellipsis, o.pmin - 11))
+
+
 # ------------------------------------------------------------------ invariants (C13 / C14)
 def check_inv(o, fail, where=""):
     """the invariants C13 names, on a live object; `fail(text)` on violation"""
